@@ -45,13 +45,15 @@ def run(ctx):
             for region in ("len", "tag", "body"):
                 scen.append({"id": "bits%d" % k, "moves": [{"m": "flip", "i": 2, "r": region}], "intact": 1, "victim": victim,
                              "sizes": [100, 1427, 5], "pads": [0, 0, 0], "bits": "sample", "nsample": 40, "chunk": "random", "seed": ctx.seed + k}); k += 1
+    # an endpoint's own ciphertext fed back to it (real <-> real): nothing may be delivered
+    for i in range(6 if quick else 40):
+        scen.append({"id": "reflect%d" % i, "kind": "reflect", "moves": [], "intact": 0, "victim": "", "sizes": [], "pads": [], "bits": "", "nsample": 0,
+                     "chunk": "whole", "seed": ctx.seed * 7 + i})
     binary = ctx.go_build("./cmd/c05")
     traces = ctx.exec_scenarios(binary, scen, "c05", shards=15, timeout=3000)
     if len(traces) != len(scen) and not any(t.get("crashed") for t in traces):
         raise Inconclusive("%d scenarios, %d traces" % (len(scen), len(traces)))
-    dead = [(t["id"], [e for e in t["events"] if e.get("event") == "DriverDead"]) for t in traces if any(e.get("event") == "DriverDead" for e in t["events"])]
-    if dead:
-        raise Inconclusive("driver could not complete scenarios %s" % dead[:3])
+    traces = ctx.drop_dead(traces)
     nruns = sum(1 for t in traces for e in t["events"] if e.get("event") == "Run")
     ctx.sample({"scenario": traces[5]["scenario"], "events": traces[5]["events"][:8]})
     ctx.sample({"scenario": traces[-1]["scenario"], "events": traces[-1]["events"][:5]})
@@ -73,6 +75,10 @@ def run(ctx):
 
 def replay(ctx, path):
     v = json.load(open(path))
+    # an endpoint's own ciphertext fed back to it (real <-> real): nothing may be delivered
+    for i in range(6 if quick else 40):
+        scen.append({"id": "reflect%d" % i, "kind": "reflect", "moves": [], "intact": 0, "victim": "", "sizes": [], "pads": [], "bits": "", "nsample": 0,
+                     "chunk": "whole", "seed": ctx.seed * 7 + i})
     binary = ctx.go_build("./cmd/c05")
     traces = ctx.exec_scenarios(binary, [v["scenario"]], "replay", timeout=600)
     for t in ctx.validate("Obfs4TamperTrace", "Obfs4TamperTrace.cfg", traces, label="replay"):
